@@ -26,6 +26,19 @@ def collect(pid, tier, seed, d, binp):
         states += st["distinct"]; transitions += st["generated"]
         mc_info.append({"spec": "FlytRetryTimed", "N": n, "W": w, "MaxTime": mt, "distinct_states": st["distinct"], "states_generated": st["generated"], "wall_s": round(wall, 1)})
         log("mc timed retry loop N=%d W=%d: states=%d (%.1fs)" % (n, w, st["distinct"], wall))
+    if pid == "C20":
+        # unbounded: the inductive invariant of FlytRetryTimedProof.tla, proved with TLAPS for every N, W and clock bound
+        # (and model-checked by TLC on a bounded instance, so that invariant and proof speak about the same thing)
+        nobl, wall = run_tlapm(d, "FlytRetryTimedProof")
+        log("tlapm FlytRetryTimedProof: all %d obligations proved (%.1fs): WaitHonoured, WaitOnlyBetween, AttemptBound, PromptReturn, "
+            "NoAttemptAfterCancelledWait for every N, W" % (nobl, wall))
+        lines, wall2 = run_tlc(d, "FlytRetryTimedProof", "SPECIFICATION TSpec\nCONSTANTS\n  N = 3\n  W = 2\n  MaxTime = 8\nINVARIANT Inv\nCHECK_DEADLOCK FALSE\n",
+                               workers=4, heap="2g", tag="mc_timed_inv", timeout=600)
+        st = tlc_stats(lines)
+        states += st["distinct"]; transitions += st["generated"]
+        mc_info.append({"spec": "FlytRetryTimedProof (TLAPS)", "obligations_proved": nobl, "wall_s": round(wall, 1),
+                        "theorem": "TSpec => [](WaitHonoured /\\ WaitOnlyBetween /\\ AttemptBound /\\ PromptReturn /\\ NoAttemptAfterCancelledWait), all N, W \\in Nat",
+                        "inductive_invariant_also_model_checked": {"N": 3, "W": 2, "MaxTime": 8, "distinct_states": st["distinct"]}})
     binp = binp or build_harness(d)
     hist = os.path.join(d, "timing_hist.ndjson")
     run_harness(binp, ["timing", "--out", hist, "--seed", str(seed), "--count", "10" if tier == "quick" else "100"])
